@@ -427,7 +427,11 @@ def run_async(pid, tier, seed, res, only=None):
 
             async def many():
                 return await asyncio.gather(*[da(*a) for a in argsets], return_exceptions=True)
-            got = asyncio.run(many())
+            try:
+                got = asyncio.run(many())
+            except BaseException as e_:  # noqa: BLE001
+                res.hit("C17", "monitor", "gathered concurrent awaits with arguments %r: the gathering coroutine itself was cancelled / failed with %s: %s" % (argsets, type(e_).__name__, e_), dict(base, kind="monitor", variant="gather"))
+                got = []
             for a, g in zip(argsets, got):
                 # C17 compares the concurrent await with what the same function gives on its own as a
                 # (synchronous) DAG; whether that equals the plain function is C01/C10/C20's question (K-value),
